@@ -12,8 +12,9 @@ import (
 
 func init() {
 	register(&propSpec{
-		ID:    "C07",
-		Title: "Decrypt yields the original plaintext or an error: never other bytes, no crash",
+		ID:            "C07",
+		UsesCallGraph: true,
+		Title:         "Decrypt yields the original plaintext or an error: never other bytes, no crash",
 		Explanation: "Structural necessary conditions of C07 at every dereference / call site of the SDK core: (nil-guard) every dereference of a pointer that traces back to a declared nullable source — " +
 			"results of Metastore.Load/LoadLatest and Loader.Load, the ParentKeyMeta / Key fields of records — is dominated by a non-nil test of the same value, through helper parameters (all call sites), " +
 			"closure captures and call results; (length-guard) the nonce/ciphertext slicing in Decrypt is dominated by len(data) >= NonceSize(); (authenticated-only) the cipher is crypto/cipher.NewGCM over " +
